@@ -4,7 +4,7 @@ CONSTANTS
   MaxBuf = 3
   Sizes = {1, 2, 3}
   InitSizes = {0, 2}
-  MaxSteps = 6
+  MaxSteps = 5
   WithWriteDirect = FALSE
 INIT Init
 NEXT Next_
